@@ -881,6 +881,13 @@ func (te *TemplateEngine) cloneDocument(source *Document) *Document {
 		copy(doc.documentRelationships.Relationships, source.documentRelationships.Relationships)
 	}
 	doc.stylesRelID = source.stylesRelID
+	doc.stylesGenerated = source.stylesGenerated
+	if source.stylesBaseline != nil {
+		doc.stylesBaseline = make(map[string]bool, len(source.stylesBaseline))
+		for id := range source.stylesBaseline {
+			doc.stylesBaseline[id] = true
+		}
+	}
 
 	// 复制内容类型
 	if source.contentTypes != nil {
